@@ -1,4 +1,19 @@
-// engine K harnesses for module hook 'fp31' (included under cfg(kani) by /repo)
+// engine K — ff/prime_field.rs, `mod fp31*`: Fp31 (property C08). Shared text: kani/field_common.rs
+include!(concat!(env!("IPA_VERIF_DIR"), "/kani/field_common.rs"));
+field_harnesses!(Fp31, u8, u16, 31, 8, z3);
+
+/// `modulo_prime_base` (remainder operator on the operation-store type): canonical reduction of every input
+#[kani::proof_for_contract(Fp31::modulo_prime_base)]
+#[kani::solver(z3)]
+fn reduce_base_contract() {
+    let v: u16 = kani::any();
+    kani::cover!((v as u128) >= P);
+    kani::cover!(v == <u16>::MAX);
+    let r = Fp31::modulo_prime_base(v);
+    #[cfg(test)]
+    assert!(reduce_base_post(v, &r));
+    let _ = r;
+}
 
 #[cfg(test)]
 include!(concat!(env!("IPA_VERIF_DIR"), "/.build/playback/fp31.rs"));
